@@ -39,23 +39,24 @@ bool InstrumentMetaDataValidator::ValidateName(nostd::string_view name) const
 {
 
 #if OPENTELEMETRY_HAVE_WORKING_REGEX
-  return std::regex_match(name.data(), name_reg_key_);
+  return std::regex_match(name.begin(), name.end(), name_reg_key_);
 #else
   const size_t kMaxSize = 255;
-  // size atmost 255 chars
-  if (name.size() > kMaxSize)
+  // size atleast 1 and atmost 255 chars
+  if (name.empty() || name.size() > kMaxSize)
   {
     return false;
   }
   // first char should be alpha
-  if (!isalpha(name[0]))
+  if (!isalpha(static_cast<unsigned char>(name[0])))
   {
     return false;
   }
   // subsequent chars should be either of alphabets, digits, underscore,
   // minus, dot, slash
   return !std::any_of(std::next(name.begin()), name.end(), [](char c) {
-    return !isalnum(c) && (c != '-') && (c != '_') && (c != '.') && (c != '/');
+    return !isalnum(static_cast<unsigned char>(c)) && (c != '-') && (c != '_') && (c != '.') &&
+           (c != '/');
   });
 #endif
 }
@@ -63,7 +64,7 @@ bool InstrumentMetaDataValidator::ValidateName(nostd::string_view name) const
 bool InstrumentMetaDataValidator::ValidateUnit(nostd::string_view unit) const
 {
 #if OPENTELEMETRY_HAVE_WORKING_REGEX
-  return std::regex_match(unit.data(), unit_reg_key_);
+  return std::regex_match(unit.begin(), unit.end(), unit_reg_key_);
 #else
   const size_t kMaxSize = 63;
   // length atmost 63 chars
